@@ -52,6 +52,8 @@ def parseStmt (t : String) : Option Stmt :=
   | ["bn", ms, n] => do pure (.bn (← ms.toNat?) (← n.toNat?))
   | ["k", sig, k] => k.toNat?.map (.kill sig)
   | ["tw", sig, n] => n.toNat?.map (.tw sig)
+  | ["tk", sig, ms, n] => do pure (.tk false sig (← ms.toNat?) (← n.toNat?))
+  | ["tkg", sig, ms, n] => do pure (.tk true sig (← ms.toNat?) (← n.toNat?))
   | ["ti"] => some .ti
   | ["gj", k] => k.toNat?.map .gj
   | ["wx"] => some .wx
